@@ -309,6 +309,8 @@ func gcPrune(L int, post int, layoutRestart bool) func(hist []Op, op Op) bool {
 		switch {
 		case post == 0:
 			return true
+		case post == -2: // exactly one more letter: a second GC request in the same process
+			return !(npost == 0 && ngc == 1 && op.K == "gc")
 		case post == 1:
 			return !(npost+ngc-1 == 0 && op.K == "restart")
 		case npost+ngc-1 == 0:
@@ -341,10 +343,14 @@ func gcSpecs(prop string, tier string, reclaim bool) []*XSpec {
 			base := pr
 			pr = func(hist []Op, op Op) bool { return base(hist, op) || symmetricKeys(ks, hist, op) }
 		}
-		return &XSpec{Property: prop, Name: fmt.Sprintf("%s-L%d-post%d", c.Name, L, post), Cfg: c, Alphabet: al, Depth: L + 4, Keys: ks, Exec: gcExec(reclaim), Prune: pr}
+		name := fmt.Sprintf("%s-L%d-post%d", c.Name, L, post)
+		if post == -2 {
+			name = fmt.Sprintf("%s-L%d-then-second-pass", c.Name, L)
+		}
+		return &XSpec{Property: prop, Name: name, Cfg: c, Alphabet: al, Depth: L + 4, Keys: ks, Exec: gcExec(reclaim), Prune: pr}
 	}
 	if tier == "quick" {
-		return []*XSpec{mk(cfgGC1(), 3, 2), mk(cfgGC2(), 5, 1), mk(cfgGC1(), 4, 0)}
+		return []*XSpec{mk(cfgGC1(), 3, 2), mk(cfgGC2(), 5, 1), mk(cfgGC1(), 4, 0), mk(cfgGC2(), 5, -2)}
 	}
 	return []*XSpec{mk(cfgGC1(), 4, 2), mk(cfgGC2(), 5, 2), mk(cfgGC1(), 5, 1), mk(cfgGC2(), 7, 1), mk(cfgGC3(), 9, 0)}
 }
